@@ -915,3 +915,19 @@ def expected_at_cursor(run, R="SPAN"):
                 bad.append("%s locates it at `%s`" % (f.loc(t["span"]), sp[:80]))
     run.check(n >= 3 and not bad, R, R + "|expected|at-cursor", "-", "`expected ...` syntax errors are located at the cursor (%d site(s))" % n,
               "an `expected ...` syntax error is not located at the cursor (%s): with the expected thing missing at the end of a line, the error would be reported on a later line" % ("; ".join(bad) or "sites not found"))
+
+
+def parenthesized_span(run, R="SPAN"):
+    """a parenthesised expression is located with its parentheses: the parser does not hand back the inner expression as it is
+    (whose span starts after `(`), or every enclosing node - and every listing row and caret - starts inside the parenthesis"""
+    from rules_sym import deep
+    fs = [f for f in run.prog.real_fns() if re.search(r"ExpressionParser(::<.*>)?::parse_parenthesized$", f.id)]
+    if len(fs) != 1:
+        run.violation(R, R + "|parenthesized", "-", "mechanism not found: parse_parenthesized")
+        return
+    f = fs[0]
+    pays = [deep(f, st["rv"]["ops"][0], 6) for bi, si, st in f.stmts() if st["k"] == "assign" and st["place"]["l"] == 0 and not st["place"]["p"]
+            and st["rv"]["k"] == "agg" and st["rv"].get("variant") == "Ok"]
+    unchanged = [p_ for p_ in pays if re.fullmatch(r"ExpressionParser::parse_expr\(P1\)@Continue\.0", p_)]
+    run.check(bool(pays) and not unchanged, R, R + "|parenthesized", f.loc(), "a parenthesised expression carries a span that includes its parentheses",
+              "parse_parenthesized returns the inner expression unchanged: its span starts after the `(`, so `#d8 (1 + 2) * 300` is reported (and listed) as `1 + 2) * 300`")
